@@ -77,4 +77,4 @@ def obligations():
                  'headers drops the peer\'s cached latest block filter hashes (they belong to the abandoned branch and would make the new chain\'s hashes be ignored); '
                  'without reorg headers the cache is kept; other peers untouched', ex_ups, 'arbitrary peer state, <=2 reorg headers, 2 peers', timeout=1200, mem_gb=10,
                  min_covers=2, weight=3, cuts=['LatestBlockFilterHashes -> counter + cleared flag', 'DashMap -> array']),
-    ]
+    ] + common.shared('C02', ['O2.6-body-semantic'], 'O4', 'after a batch of matched blocks is indexed the script numbers stand at the END of the batch range, so that a later rollback_to_block does not skip the script')
